@@ -483,6 +483,15 @@ def run(ctx):
                     if skip == 0 and rnd.random() < 0.5:
                         fl.FldExporter(headers=rnd.random() < 0.7).to_string_from_reader(engine, io.StringIO(text))  # skip_lines left to its default
                         ctx.hit("reader:skip_lines left to its default")
+                    elif i % 4 == 1:
+                        # a reader that has already been read from (a preamble consumed by the caller): the dataset is that of
+                        # the lines the reader still has to give
+                        preamble = rnd.choice(["# produced by a logger\n", "0.5 0.5 0.5\n# done\n", "temperature humidity\n\n"])
+                        reader = io.StringIO(preamble + text)
+                        for _ in range(preamble.count("\n")):
+                            reader.readline()
+                        fl.FldExporter(headers=rnd.random() < 0.7).to_string_from_reader(engine, reader, skip_lines=skip)
+                        ctx.hit("reader:handed over after a part of it was read")
                     else:
                         fl.FldExporter(headers=rnd.random() < 0.7).to_string_from_reader(engine, io.StringIO(text), skip_lines=skip)
                 except Exception:
@@ -493,7 +502,7 @@ def run(ctx):
         reach.report(ctx)
     ctx.require("event:bounds of an input variable assigned between two exports", "event:range of an input variable collapsed to a single point")
     ctx.require("workload:input and output variable of one name", "workload:values generated for a subset of the input variables", "piece:subset of active variables")
-    ctx.require("ranges held as integers", "reader:rows with output columns", "reader:ragged rows", "reader:row starting with a non-finite value", "reader:skip_lines left to its default", "workload:table of more than 4096 rows", "event:engine edited after loading, before export")
+    ctx.require("ranges held as integers", "reader:handed over after a part of it was read", "reader:rows with output columns", "reader:ragged rows", "reader:row starting with a non-finite value", "reader:skip_lines left to its default", "workload:table of more than 4096 rows", "event:engine edited after loading, before export")
     ctx.require("hook:FldExporter.to_string_from_scope", "hook:FldExporter.to_string_from_reader", "scope:AllVariables", "scope:EachVariable", "scope:reader", "compare:outputs of a row", "piece:perfect power", "piece:between powers", "inputs:1", "inputs:2", "inputs:3", "inputs:4", "entry:file", "entry:writer")
 
 
